@@ -325,6 +325,9 @@ fn enumerate_ctors(_t: Tier, shard: usize, nshards: usize, f: &mut dyn FnMut(Cas
                 ops.push(Op::AllFunctionsNth(k));
             }
             if n <= 3 {
+                for kind in 0..6u8 {
+                    ops.push(Op::AllFunctionsConsume(kind));
+                }
                 // at and beyond the end of the enumeration: one, two, four times the function space
                 let space = 1usize << (1usize << n);
                 for k in [space - 1, space, space + 1, 2 * space - 1, 2 * space, 2 * space + 1, 3 * space, 4 * space, 4 * space + 1, 1024, 1025] {
